@@ -61,7 +61,7 @@ def run_property(prop: str, tier: str, seed: int, root=None) -> int:
         print(f"ANALYSIS-ERROR property={prop} check not built")
         return 2
     try:
-        budget = int(os.environ.get("VERIF_ANALYSIS_BUDGET", "900"))
+        budget = int(os.environ.get("VERIF_ANALYSIS_BUDGET", "300"))
         with analysis_budget(budget, prop):
             eng = Engine(root)
             hits = eng.g0()
